@@ -157,13 +157,19 @@ RAT = re.compile(r"^-?\d+(/\d+)?$")
 
 def representable(tok, bits):
     """is this exact rational a float of the build's width, with room to spare?"""
+    # m * 2^e with an odd mantissa m of fewer than `bits` bits and an exponent well inside the format's range
+    emax = 900 if bits > 30 else 100
     if "/" in tok:
         n, d = tok.split("/")
-        d = int(d)
-        if d & (d - 1) or d > (1 << (bits - 10)):
+        n, d = abs(int(n)), int(d)
+        if d & (d - 1) or d.bit_length() - 1 > emax:
             return False
-        return abs(int(n)) < (1 << bits)
-    return abs(int(tok)) < (1 << bits)
+        return n < (1 << bits)          # n is odd here (the fraction is in lowest terms)
+    n = abs(int(tok))
+    if n == 0:
+        return True
+    tz = (n & -n).bit_length() - 1
+    return (n >> tz) < (1 << bits) and tz <= emax
 
 
 def line_representable(line, bits=50):
